@@ -105,6 +105,8 @@ def get_user(p0: bool, p1: bool, p2: bool, flip: bool, m0: int, m1: int, m2: int
     got = list(sopclass.qr_get_scu(asce, ctx_of(1, GET_SOP), IDENT, 77))
     sent = asce.sent()
     ok = len(asce.script) == 1 and len(sent) == 1 + n and sent[0].command_field == 0x0010 and sent[0].message_id == 77
+    if not ok:
+        return False                  # a request left unanswered (or answered twice), or an unread message consumed
     # every C-STORE request answered exactly once, on the context it arrived on
     for i in range(n):
         s = sent[1 + i]
